@@ -26,7 +26,11 @@ LEVEL = "proof"
 THEOREMS = "Props/C05.v"
 EXTRA_TARGETS = ("PBC/Check.vo",)
 EXTS = ["_geometry"]
-RULE = ("a case = (cell kind, reduced/unreduced, per-frame cells, spread of the atoms in cells, API, opt, periodic, "
+RULE = ("[cell kinds: 9 named shapes + all 8 zero/non-zero patterns of (b_x, c_x, c_y) + rotated cells for "
+        "compute_distances_core; every case contains (i,i), coincident-atom and exact-periodic-image pairs; "
+        "compute_distances_t gets every ordered frame pair, find_closest_contact every frame with possibly overlapping "
+        "groups; opt=True vs opt=False compared entry by entry over the whole separation range] "
+        "a case = (cell kind, reduced/unreduced, per-frame cells, spread of the atoms in cells, API, opt, periodic, "
         "pair list); one evaluation = one pair-frame (one reported distance or displacement); non-trivial = "
         "periodic pair-frame whose plain separation leaves the primary cell (non-zero lattice shift); distinct by "
         "hash of (cell, separation, API, opt)")
@@ -41,8 +45,11 @@ ASSUMPTIONS = [
     "on the 2^-10 nm grid float32 arithmetic up to the dot product is exact and tol = 2^-21*d; lattice shifts are "
     "compared exactly outside a guard band of width tol around rounding ties of the wrap (counted as excluded); a "
     "rounding tie of the box reduction (hexagonal cells, b_x = a_x/2) is compared against both resolutions",
-    "cells are in mdtraj's standard orientation (a along x, b in the xy plane, positive diagonal); the Trajectory "
-    "stores lengths/angles, so the cell the kernels see is the float32 read-back of traj.unitcell_vectors",
+    "cells are in mdtraj's standard orientation (a along x, b in the xy plane, positive diagonal): every "
+    "Trajectory-based entry point regenerates unitcell_vectors in that form from lengths/angles (the cell the kernels "
+    "see is the float32 read-back of traj.unitcell_vectors); compute_distances_core is the only entry point that can "
+    "be handed another orientation: it is probed with cells rotated by the exact 3-4-5 angle (model still exact; "
+    "theorem minimal_halfwidth_nonstandard_orientation_refuted; known finding C05-core-nonstandard-orientation)",
     "non-orthorhombic generated cells deviate from 90 degrees by more than 0.05 degrees: the np.allclose(angles, 90) "
     "dispatch (tolerance 9e-4 degrees) is modelled as 'all off-diagonal entries are zero'",
 ]
@@ -634,7 +641,7 @@ def fixed_cases():
 
 def build_cases(ctx):
     rng = ctx.rng
-    n = 6 if ctx.tier == "quick" else 110
+    n = 6 if ctx.tier == "quick" else 130
     cases = fixed_cases()
     for kind in CELL_KINDS:
         for _ in range(n if kind != "triclinic" else 3 * n):
@@ -1048,41 +1055,23 @@ def cross_path_check(ctx, cases, meta, defs_by_case, stats):
         call = cases[info["ci"]]["calls"][info["li"]]
         key = (info["ci"], info["api"], info["periodic"], json.dumps(call.get("pairs")), json.dumps(call.get("times")))
         groups.setdefault(key, {})[bool(info["opt"])] = info
-    todo, exprs = [], []
+    # pass 1 (python only): entries where the two paths disagree; pass 2 (coqc): are those entries ties?
+    suspects = []
     for key, g in groups.items():
         if True not in g or False not in g:
             continue
         a, b = g[True], g[False]
-        ci = a["ci"]
-        call = cases[ci]["calls"][a["li"]]
-        pairs = call.get("pairs", [])
-        if a["boxK"] is None:
-            flags = None
-        else:
-            G = max(a["G"], b["G"])
-            boxname = ("raw_%d" if a["api"] == "core_raw" else "seen_%d") % ci
-            pairs_t = clist(["(%d%%nat, %d%%nat)" % (p[0], p[1]) for p in pairs])
-            if a["api"] == "dist_t":
-                times_t = clist(["(%d%%nat, %d%%nat)" % (x, y) for x, y in call["times"]])
-                exprs.append((ci, "concat (check_ties_t %d xyz_%d %s %s %s)" % (G, ci, boxname, pairs_t, times_t)))
-            else:
-                exprs.append((ci, "concat (check_ties %d xyz_%d %s %s)" % (G, ci, boxname, pairs_t)))
-            flags = len(exprs) - 1
-        todo.append((a, b, flags))
-    res = run_coq(ctx, defs_by_case, exprs) if exprs else []
-    for a, b, fi in todo:
         c = cases[a["ci"]]
         da, db = a["out"]["data"], b["out"]["data"]
         width = 3 if a["api"] == "disp" else 1
         n_entries = len(da) // width
-        flags = res[fi] if fi is not None else [0] * n_entries
-        if len(flags) != n_entries or len(db) != len(da):
+        if len(db) != len(da):
             continue
         ortho_all = a["boxK"] is not None and all(
             is_lower_tri(bx) and bx[1][0] == 0 and bx[2][0] == 0 and bx[2][1] == 0 for bx in a["boxK"])
+        bads = []
         for k in range(n_entries):
             stats["cross_path_checks"] = stats.get("cross_path_checks", 0) + 1
-            tie = flags[k] != 0
             if a["api"] == "disp":
                 va, vb = da[3 * k:3 * k + 3], db[3 * k:3 * k + 3]
                 na = math.sqrt(sum(x * x for x in va))
@@ -1090,21 +1079,45 @@ def cross_path_check(ctx, cases, meta, defs_by_case, stats):
             else:
                 na, nb = da[k], db[k]
             tol = tol_abs(0.0 if a["exact"] else a["M"], na) + tol_abs(0.0 if b["exact"] else b["M"], nb)
-            bad = None
-            if abs(na - nb) > tol and (not tie or ortho_all):
-                bad = ("distance", na, nb)
-            elif a["api"] == "disp" and not tie:
+            if abs(na - nb) > tol:
+                bads.append((k, "distance", na, nb, ortho_all))      # orthorhombic: no tie excuses a distance
+            elif a["api"] == "disp":
                 f, j = divmod(k, len(a["shifts"][0]))
                 if a["shifts"][f][j] != b["shifts"][f][j]:
-                    bad = ("lattice shift", a["shifts"][f][j], b["shifts"][f][j])
-            if tie:
+                    bads.append((k, "lattice shift", a["shifts"][f][j], b["shifts"][f][j], False))
+        if bads:
+            suspects.append((a, b, bads))
+    exprs = []
+    for a, b, bads in suspects:
+        ci = a["ci"]
+        call = cases[ci]["calls"][a["li"]]
+        pairs = call.get("pairs", [])
+        if a["boxK"] is None:
+            a["_flags"] = None
+            continue
+        G = max(a["G"], b["G"])
+        boxname = ("raw_%d" if a["api"] == "core_raw" else "seen_%d") % ci
+        pairs_t = clist(["(%d%%nat, %d%%nat)" % (p[0], p[1]) for p in pairs])
+        if a["api"] == "dist_t":
+            times_t = clist(["(%d%%nat, %d%%nat)" % (x, y) for x, y in call["times"]])
+            exprs.append((ci, "concat (check_ties_t %d xyz_%d %s %s %s)" % (G, ci, boxname, pairs_t, times_t)))
+        else:
+            exprs.append((ci, "concat (check_ties %d xyz_%d %s %s)" % (G, ci, boxname, pairs_t)))
+        a["_flags"] = len(exprs) - 1
+    res = run_coq(ctx, defs_by_case, exprs) if exprs else []
+    for a, b, bads in suspects:
+        c = cases[a["ci"]]
+        flags = res[a["_flags"]] if a.get("_flags") is not None else None
+        for k, what, x, y, no_excuse in bads:
+            tie = flags is not None and k < len(flags) and flags[k] != 0
+            if tie and not no_excuse:
                 stats["cross_path_ties_excluded"] = stats.get("cross_path_ties_excluded", 0) + 1
-            if bad:
-                ctx.fail("optimised (opt=True) and reference (opt=False) code paths disagree outside rounding ties",
-                         replay_case(c, [a["li"], b["li"]]), observed={"what": bad[0], "opt_true": bad[1], "entry": k},
-                         expected={"opt_false": bad[2]},
-                         tags={"api": a["api"], "periodic": a["periodic"], "cell": c["kind"], "kind": "paths_disagree"})
-                break
+                continue
+            ctx.fail("optimised (opt=True) and reference (opt=False) code paths disagree outside rounding ties",
+                     replay_case(c, [a["li"], b["li"]]), observed={"what": what, "opt_true": x, "entry": k},
+                     expected={"opt_false": y},
+                     tags={"api": a["api"], "periodic": a["periodic"], "cell": c["kind"], "kind": "paths_disagree"})
+            break
 
 
 def replay_case(c, li):
